@@ -359,3 +359,27 @@ func linearComplexity_alt1(a []bool, M int) int {
 	}
 	return L
 }
+
+// rank_alt3: a non-zero row counted and left through a labelled continue of the row loop (the same as counting it and
+// breaking out of the column loop: nothing follows the column loop in the row loop's body).
+func rank_alt3(matrix [][]int, m int) int {
+	t := make([][]int, m)
+	for i := 0; i < m; i++ {
+		t[i] = make([]int, m)
+		for j := 0; j < m; j++ {
+			t[i][j] = matrix[i][j]
+		}
+	}
+	rowEchelon(t, m)
+	r := 0
+rows:
+	for i := 0; i < m; i++ {
+		for j := 0; j < m; j++ {
+			if t[i][j] != 0 {
+				r++
+				continue rows
+			}
+		}
+	}
+	return r
+}
